@@ -128,6 +128,7 @@ type v28Rec struct {
 	id       uint64
 	parent   uint64 // 0 = not a follow-up
 	followup bool
+	extra    int // payload octets after the 8-octet tag
 }
 
 func v28Payload(tag uint64, extra int) []byte {
@@ -141,7 +142,7 @@ func v28Payload(tag uint64, extra int) []byte {
 
 type v28Obs struct {
 	conns, reconnects, dropRecords, droppedEvents, delivered, followupsDelivered, parkedEmits, closeRaces, dialFailures int
-	invalid, cleanEnds, emptyDelivered                                                                              int
+	invalid, cleanEnds, emptyDelivered, largeEmitted                                                                int
 }
 
 // v28Scenario runs one scenario and returns a violation description ("" = held) with details.
@@ -198,6 +199,7 @@ func v28Scenario(r vh.R, obs *v28Obs) (string, map[string]any) {
 	}
 
 	var lastID atomic.Uint64 // a recent valid ID of any emitter (parent candidate across emitters)
+	var largeEvents atomic.Int64
 	var emptyMu sync.Mutex
 	emptyIDs := map[uint64]uint8{} // IDs handed out for payload-less events -> discriminator
 	recs := make([][]v28Rec, emitters)
@@ -218,7 +220,18 @@ func v28Scenario(r vh.R, obs *v28Obs) (string, map[string]any) {
 				}
 				tag := uint64(e+1)<<32 | uint64(k)
 				rec := v28Rec{tag: tag}
-				pl := v28Payload(tag, er.IntN(24))
+				extra := er.IntN(24)
+				switch er.IntN(40) {
+				case 0:
+					extra = 4080 + er.IntN(24) // around 4096 octets of payload (8-octet tag included)
+				case 1:
+					extra = 5000 + er.IntN(70000) // large payloads: the frame length prefix covers them too
+				}
+				if extra > 1000 {
+					largeEvents.Add(1)
+				}
+				rec.extra = extra
+				pl := v28Payload(tag, extra)
 				emitting.Add(1)
 				if er.IntN(10) == 0 {
 					// an event without payload: a lazy builder that returns nil or an empty slice, or an eager nil / empty payload. It still
@@ -369,6 +382,7 @@ func v28Scenario(r vh.R, obs *v28Obs) (string, map[string]any) {
 		return v.(string), map[string]any{"buffer": bufSize, "emitters": emitters}
 	}
 
+	obs.largeEmitted += int(largeEvents.Load())
 	// ---- receiver model over the captured streams ---------------------------------------------------------------------
 	emitted := map[uint64]v28Rec{}
 	for _, rs := range recs {
@@ -485,6 +499,15 @@ func v28Scenario(r vh.R, obs *v28Obs) (string, map[string]any) {
 			d["tag"] = fmt.Sprintf("%x", tag)
 			if !ok {
 				return "a delivered event carries a payload no emitter sent (or the emitter had not returned)", d
+			}
+			// the whole payload, not only its tag: the frame's length prefix must cover exactly what the emitter handed over
+			wirePayload := body
+			if isFollow {
+				wirePayload = body[8:]
+			}
+			if want := v28Payload(tag, rc.extra); !bytes.Equal(wirePayload, want) {
+				d["payload_len_on_the_wire"], d["payload_len_emitted"] = len(wirePayload), len(want)
+				return "a delivered event's payload differs from what its emitter handed over (length prefix or content)", d
 			}
 			if rc.followup != isFollow {
 				return "follow-up framing differs from what the emitter called", d
@@ -700,6 +723,7 @@ func TestVerifC28(t *testing.T) {
 		h.Count("followups_delivered", int64(obs.followupsDelivered))
 		h.Count("emits_returned_while_write_stalled", int64(obs.parkedEmits))
 		h.Count("payloadless_events_delivered", int64(obs.emptyDelivered))
+		h.Count("events_emitted_with_payloads_of_4_KiB_or_more", int64(obs.largeEmitted))
 		h.Count("close_racing_with_emitters", int64(obs.closeRaces))
 		h.Count("dial_failures", int64(obs.dialFailures))
 		h.Count("emits_refused_invalid_id", int64(obs.invalid))
